@@ -6,6 +6,7 @@ CONSTANTS
 INVARIANT G_C17_OpenOnce
 INVARIANT G_C17_OpensCreated
 INVARIANT G_C17_Identity
+INVARIANT G_C17_CachedNotOpened
 INVARIANT G_C17_CacheSame
 INVARIANT G_C18_CleanRepos
 INVARIANT G_C18_RepairedReload
